@@ -50,9 +50,18 @@ CLAIMED["C13"] = dict(
    note="Claimed for the key-encoding kernel ONLY. Not applicable: everything behind librocksdb-sys (FFI: put/get/delete_range/iterators, reopen, SIGKILL, merge-operator counter), the fixed 8-byte prefix extractor configured in rocks.rs (interpreted by RocksDB), KeyStore name keys (format!), and the in-memory store (std HashMap; not attempted). Assumes RocksDB's default bytewise comparator.",
    ref="DESIGN.md section 4, C13")
 
+CLAIMED["C10"] = dict(
+   text="Bounded symbolic model checking of the real raw value-family codecs (WithLengthBytesCodec, RawValueLaneRequest/Response encoders+decoders, RawValueStoreInit, StoreInitializedCodec, RawValueStoreResponseDecoder, DownlinkOperationDecoder): the real encoder's output equals the generated wire layout; for EVERY cut position of every frame kind the real decoder answers Ok(None) on the prefix and, once the rest is appended to the same buffer, returns exactly the encoded message and leaves the buffer empty; two frames in one stream (cut anywhere or not): the decoder never consumes bytes of the next frame. Body lengths concrete (0..1 quick, 0..2 thorough), ids and body bytes symbolic.",
+   note="Claimed for the value-family raw codecs only. Outside (measured, do not finish under CBMC): map-operation/map-message/map-lane/map-store codecs, ad hoc command and routed request/response codecs (every cut scenario > 200 s; single-cut Register-frame harnesses time out at 900 s) and the corruption family (a single symbolic tag/length byte does not finish in 150 s) - so the clause 'corrupt tags or lengths produce an error rather than a panic' is NOT decided. Typed (Recon) codecs and cuts into three or more pieces are outside. Stub: alloc::fmt::format -> empty String. Frame bytes reach the decoder from exact-size array literals (bytes that passed through the encoder's heap buffer are not constant-folded), which is why encoder==layout and decoder-on-layout are separate linked obligations.",
+   ref="DESIGN.md section 4, C10")
+
+CLAIMED["C04"] = dict(
+   text="Bounded symbolic model checking of one remote's real uplink scheduler (Uplinks::{push, push_special, replace_and_pop} with its value/supply uplinks, queued/send_synced flags, write queue and special queue): the first push finds the writer free, a second push finds it lent out; the writer is then handed back once and the WriteTask that comes out is interpreted with perform_write's action table: events only inside a link and only with a body the lane produced (in order), synced only after a sync request and after the data queued before it, specials pre-empt, frames carry the name of their lane, owed work is handed out; the scheduler's representation invariant (queued flag <-> write-queue entry, an uplink that owes a write is queued) is checked before and after the hand-back.",
+   note="Narrow kernel claim. Covered: every single push, and every pair whose second push (writer lent out) is an empty value body, a value-lane Synced marker or an Unlinked/Linked special; body bytes symbolic. Outside (measured: time out at 900 s): pairs whose second push is a non-empty body or a supply-lane operation, three or more pushes, a second hand-back - so value coalescing under a busy writer, supply re-queueing and multi-hand-back drains are not covered. Not applicable: Links/RemoteTracker/WriteTaskState (several remotes, broadcast fan-out, unlink_all, lane failure, agent stop), map uplinks, perform_write itself (async FramedWrite; its action->frame table is mirrored), LaneNotFound, the read task, timers, interleavings. Stubs: parking_lot slow paths; std HashMap -> shim; LaneRegistry built through private fields (tracing::debug! in add_endpoint makes the Kani compiler panic). One genuine defect found and repaired (C04-X1).",
+   ref="DESIGN.md section 4, C04")
+
 NA = {
  "C03": "the sync-queue path of WriteQueues does not finish under CBMC even fully concrete (update+sync+3 pops: time-out at 400 s; same shape without sync: 8 s); the runtime half needs Uplinks (byte channel + promise + BytesMut buffers); no smaller kernel carries the property (DESIGN.md section 4/5)",
- "C04": "Uplinks/Links/RemoteTracker/WriteTaskState cannot be encoded within reach: constructing Uplinks needs byte_channel + trigger::promise (Kani ICE in the probe), the nested HashMap registries ran out of memory at 40 GB even with concrete shape, and the BytesMut backpressure buffers hit the double-extend pathology measured for C12",
  "C05": "the property is the order of persist_response before handle_event inside an async select loop, every crash point and restart through tokio tasks; Kani cannot execute the runtime and the only kernel (persist_response) says nothing about order or crashes",
  "C06": "quantifies over handler programs (trees of boxed HandlerActions) run by the agent's async loop; no data-symbolic kernel carries it, program structure can only be enumerated",
  "C08": "on_read/on_event are private async fns over lifecycle futures and tracing, hosted downlinks sit behind the agent HandlerAction machinery; far simpler heap code (C02, C12) is already at CBMC's limit, so no honest bound was in reach",
